@@ -512,13 +512,11 @@ class PolygonTensor(PolytopeTensor):
             except LinearDependenceError as e:
                 if other._line.free_indices > 0:
                     other = cast(SegmentTensor, other[~e.dependent_values])
-                result = cast(PlaneTensor, self._plane[~e.dependent_values]).meet(other._line)
-                return list(
-                    result[
-                        PolygonCollection.from_tensor(self[~e.dependent_values]).contains(result)
-                        & other.contains(result)
-                    ]
-                )
+                polygons: PolygonTensor = self
+                if self._plane.free_indices > 0:
+                    polygons = PolygonCollection.from_tensor(self[~e.dependent_values])
+                result = polygons._plane.meet(other._line)
+                return list(result[polygons.contains(result) & other.contains(result)])
             else:
                 return list(result[self.contains(result) & other.contains(result)])
 
@@ -527,8 +525,11 @@ class PolygonTensor(PolytopeTensor):
         except LinearDependenceError as e:
             if other.free_indices > 0:
                 other = other[~e.dependent_values]
-            result = cast(PlaneTensor, self._plane[~e.dependent_values]).meet(other)
-            return list(result[PolygonCollection.from_tensor(self[~e.dependent_values]).contains(result)])
+            polygons = self
+            if self._plane.free_indices > 0:
+                polygons = PolygonCollection.from_tensor(self[~e.dependent_values])
+            result = polygons._plane.meet(other)
+            return list(result[polygons.contains(result)])
         else:
             return list(result[self.contains(result)])
 
